@@ -148,13 +148,16 @@ def rand_poly(rng, nterms=None):
     return p_norm(d)
 
 
-def size_ok(a, b=None):
-    if a is None or (b is None and False):
-        return False
-    if b is None:
-        return len(a) <= 6 and max([sum(e for _, e in m) for m in a] + [0]) <= 4
-    return (a is not None and b is not None and len(a) * len(b) <= 30
-            and max([sum(e for _, e in m) for m in a] + [0]) + max([sum(e for _, e in m) for m in b] + [0]) <= 7
+def _deg(a):
+    return max([sum(e for _, e in m) for m in a] + [0])
+
+
+def size_ok1(a):
+    return a is not None and len(a) <= 6 and _deg(a) <= 4
+
+
+def size_ok(a, b):
+    return (a is not None and b is not None and len(a) * len(b) <= 30 and _deg(a) + _deg(b) <= 7
             and max([abs(c) for c in a.values()] + [0]) < 2**80 and max([abs(c) for c in b.values()] + [0]) < 2**80)
 
 
@@ -272,7 +275,7 @@ class Hist:
         op = rng.choice(["add", "add", "sub", "sub", "mul", "mul", "neg", "der", "pow", "addmul", "gcd", "res"])
         if op in ("mul", "addmul") and not size_ok(A, B):
             op = "add"
-        if op == "pow" and not (A is not None and size_ok(A) and len(A) <= 3):
+        if op == "pow" and not (size_ok1(A) and len(A) <= 3):
             op = "neg"
         if op in ("gcd", "res") and not (A and B and size_ok(A, B)):
             op = "sub"
@@ -373,10 +376,12 @@ class Hist:
             # an operation writing into the hashed object
             b = self.pick()
             A, B = o.den, self.objs[b].den
-            op = rng.choice(["add", "sub", "mul", "addmul", "neg", "der"])
+            op = rng.choice(["add", "sub", "mul", "addmul", "neg", "der", "other", "other"])
             if op in ("mul", "addmul") and not size_ok(A, B):
                 op = "add"
-            if op in ("add", "sub"):
+            if op == "other":
+                self.other_writer(i, b)
+            elif op in ("add", "sub"):
                 self.cmds.append("%s:%d:%d:%d" % (op, i, i, b))
                 self.set_result(i, None if A is None or B is None else p_add(A, B, 1 if op == "add" else -1))
             elif op == "mul":
@@ -403,6 +408,39 @@ class Hist:
             self.c_order_change()
         k = self.fresh(i)
         self.observe(i, k)
+
+    def other_writer(self, i, b):
+        """the less common in-place writers of polynomial.c, with the (already hashed) object i as output"""
+        rng = self.rng
+        A, B = self.objs[i].den, self.objs[b].den
+        op = rng.choice(["cont", "pp", "reductum", "lcm", "submul", "mulc", "shl", "pow"])
+        if op in ("lcm", "submul") and not size_ok(A, B):
+            op = "mulc"
+        if op == "pow" and not (size_ok1(A) and len(A) <= 3):
+            op = "mulc"
+        if op == "shl" and not self.objs[i].compact:
+            # lp_polynomial_shl in place goes through coefficient_ensure_capacity: same C01 matter as `mono`
+            op = "mulc"
+        if op in ("cont", "pp", "reductum"):
+            self.cmds.append("%s:%d:%d" % (op, i, i))
+            self.set_result(i, None)
+        elif op == "lcm":
+            self.cmds.append("lcm:%d:%d:%d" % (i, i, b))
+            self.set_result(i, None)
+        elif op == "submul":
+            self.cmds.append("submul:%d:%d:%d" % (i, b, b if size_ok(B, B) else i))
+            self.set_result(i, None)
+        elif op == "mulc":
+            k = rng.choice([0, 1, -1, 2, -3, 7, 2**64 + 1])
+            self.cmds.append("mulc:%d:%d:%d" % (i, i, k))
+            self.set_result(i, None if A is None else p_norm({m: c * k for m, c in A.items()}))
+        elif op == "shl":
+            self.cmds.append("shl:%d:%d:%d" % (i, i, rng.choice([0, 1, 2])))
+            self.set_result(i, None)
+        else:
+            e = rng.choice([0, 2, 2, 3]) if len(A) <= 2 else rng.choice([0, 2])
+            self.cmds.append("pow:%d:%d:%d" % (i, i, e))
+            self.set_result(i, p_pow(A, e))
 
     def gcd_block(self):
         rng = self.rng
@@ -514,7 +552,7 @@ class Hist:
 
 
 def generate(rng, tier):
-    n = 420 if tier == "quick" else 6000
+    n = 3000 if tier == "quick" else 20000
     cases = []
     for k in range(n):
         h = Hist(rng)
@@ -523,7 +561,8 @@ def generate(rng, tier):
 
 
 ORDER_CMDS = ("ord", "push", "pop", "rev", "clear", "top", "bot")
-WRITERS = ("add", "sub", "mul", "addmul", "neg", "der", "pow", "gcd", "res", "mono", "assign", "vmove")
+WRITERS = ("add", "sub", "mul", "addmul", "neg", "der", "pow", "gcd", "res", "mono", "assign", "vmove",
+           "cont", "pp", "reductum", "lcm", "submul", "mulc", "shl")
 
 
 def features(case):
